@@ -266,4 +266,135 @@ theorem LBuf.reply_fits (r : Nat) (rep : List Op) (hw : ∀ o ∈ rep, o.isWrite
     (h : ¬ (0 < r ∧ r < 4 + opsSize rep)) : (LBuf.new r).runStop rep = (⟨r, 4 + opsSize rep⟩, false) :=
   LBuf.runStop_ok rep (LBuf.new r) hw (by show ¬ (0 < r ∧ r < opsSize rep + 4); omega)
 
+/-! ### The payload-limit header: format (client) and parse (handler) -/
+
+theorem digitVal_digitChar (d : Nat) (h : d < 10) : digitVal (digitChar d) = some d := by
+  have : d = 0 ∨ d = 1 ∨ d = 2 ∨ d = 3 ∨ d = 4 ∨ d = 5 ∨ d = 6 ∨ d = 7 ∨ d = 8 ∨ d = 9 := by omega
+  rcases this with rfl | rfl | rfl | rfl | rfl | rfl | rfl | rfl | rfl | rfl <;> decide
+
+theorem digitChar_not_sign (d : Nat) (h : d < 10) : digitChar d ≠ '-' ∧ digitChar d ≠ '+' := by
+  have : d = 0 ∨ d = 1 ∨ d = 2 ∨ d = 3 ∨ d = 4 ∨ d = 5 ∨ d = 6 ∨ d = 7 ∨ d = 8 ∨ d = 9 := by omega
+  rcases this with rfl | rfl | rfl | rfl | rfl | rfl | rfl | rfl | rfl | rfl <;> decide
+
+def valueOf (a : Nat) (l : List Nat) : Nat := l.foldl (fun a d => a * 10 + d) a
+
+theorem digitsAux_lt (fuel : Nat) : ∀ (n : Nat) (acc : List Nat), (∀ d ∈ acc, d < 10) →
+    ∀ d ∈ digitsAux fuel n acc, d < 10 := by
+  induction fuel with
+  | zero => intro n acc h; simpa [digitsAux] using h
+  | succ f ih =>
+    intro n acc h
+    simp only [digitsAux]
+    split
+    · intro d hd
+      simp at hd
+      rcases hd with rfl | hd
+      · assumption
+      · exact h d hd
+    · apply ih
+      intro d hd
+      simp at hd
+      rcases hd with rfl | hd
+      · omega
+      · exact h d hd
+
+theorem digitsAux_value (fuel : Nat) : ∀ (n : Nat) (acc : List Nat), n < fuel →
+    valueOf 0 (digitsAux fuel n acc) = valueOf n acc := by
+  induction fuel with
+  | zero => intro n acc h; omega
+  | succ f ih =>
+    intro n acc h
+    simp only [digitsAux]
+    split
+    · simp [valueOf]
+    · rw [ih (n / 10) _ (by omega)]
+      simp only [valueOf, List.foldl_cons]
+      congr 1
+      omega
+
+theorem digitsAux_ne_nil (fuel : Nat) : ∀ (n : Nat) (acc : List Nat), 0 < fuel → digitsAux fuel n acc ≠ [] := by
+  induction fuel with
+  | zero => intro n acc h; omega
+  | succ f ih =>
+    intro n acc _
+    simp only [digitsAux]
+    split
+    · simp
+    · cases f with
+      | zero => simp [digitsAux]
+      | succ g => exact ih _ _ (by omega)
+
+theorem parse_step (l : List Nat) : ∀ a : Nat, (∀ d ∈ l, d < 10) →
+    (l.map digitChar).foldl digitStep (some a) = some (valueOf a l) := by
+  induction l with
+  | nil => intro a _; rfl
+  | cons d t ih =>
+    intro a h
+    simp only [List.map_cons, List.foldl_cons, digitStep, digitVal_digitChar d (h d (by simp))]
+    rw [ih _ (fun x hx => h x (by simp [hx]))]
+    rfl
+
+/-- The handler reads back exactly the limit the client formatted. -/
+theorem parseDigits_formatUint (n : Nat) : parseDigits (formatUint n) = some n := by
+  have hlt := digitsAux_lt (n + 1) n [] (by simp)
+  have hval := digitsAux_value (n + 1) n [] (by omega)
+  have hne := digitsAux_ne_nil (n + 1) n [] (by omega)
+  unfold formatUint digits
+  cases hd : digitsAux (n + 1) n [] with
+  | nil => exact absurd hd hne
+  | cons d t =>
+    rw [hd] at hlt hval
+    have := parse_step (d :: t) 0 hlt
+    simp only [List.map_cons] at this ⊢
+    simp only [parseDigits]
+    rw [this, hval]
+    rfl
+
+theorem parseInt64_formatUint (n : Nat) : parseInt64 (formatUint n) = inInt64 false n := by
+  have hlt := digitsAux_lt (n + 1) n [] (by simp)
+  have hne := digitsAux_ne_nil (n + 1) n [] (by omega)
+  have hp := parseDigits_formatUint n
+  unfold formatUint digits at hp ⊢
+  cases hd : digitsAux (n + 1) n [] with
+  | nil => exact absurd hd hne
+  | cons d t =>
+    rw [hd] at hlt hp
+    have hs := digitChar_not_sign d (hlt d (by simp))
+    simp only [List.map_cons] at hp ⊢
+    simp only [parseInt64, if_neg hs.1, if_neg hs.2, hp, Option.bind]
+
+/-- For a limit the handler's `int64` can hold, the status depends on sizes alone. -/
+theorem handlerStatus_limit (r n : Nat) (hr : r ≤ int64Max) :
+    handlerStatus (limitHeader r) n = if 0 < r ∧ r < n then 413 else 200 := by
+  unfold limitHeader
+  by_cases h0 : 0 < r
+  · have hne : formatUint r ≠ [] := by
+      intro h
+      have := parseDigits_formatUint r
+      rw [h] at this
+      simp [parseDigits] at this
+    simp only [h0, if_true, handlerStatus, if_neg hne, parseInt64_formatUint, inInt64, hr, true_and]
+    simp only [Bool.false_eq_true, if_false]
+    by_cases hn : r < n
+    · have : (0 : Int) < (r : Int) ∧ (r : Int) < (n : Int) := by omega
+      have h2 : 0 < r ∧ r < n := ⟨h0, hn⟩
+      rw [if_pos this, if_pos hn]
+    · have : ¬ ((0 : Int) < (r : Int) ∧ (r : Int) < (n : Int)) := by omega
+      have h2 : ¬ (0 < r ∧ r < n) := by omega
+      rw [if_neg this, if_neg hn]
+  · have : r = 0 := by omega
+    subst this
+    simp [handlerStatus]
+
+/-- A limit above `MaxInt64` (the client's `uint` can hold it, the handler's `int64` cannot): 400. -/
+theorem handlerStatus_above_int64 (r n : Nat) (hr : int64Max < r) : handlerStatus (limitHeader r) n = 400 := by
+  have h0 : 0 < r := by unfold int64Max at hr; omega
+  have hne : formatUint r ≠ [] := by
+    intro h
+    have := parseDigits_formatUint r
+    rw [h] at this
+    simp [parseDigits] at this
+  have : ¬ r ≤ int64Max := by omega
+  simp [limitHeader, h0, handlerStatus, hne, parseInt64_formatUint, inInt64, this]
+
 end FV
